@@ -162,9 +162,18 @@ func VerifC18Seq() {
 	} else {
 		verifTag("end", "commit")
 	}
-	results, err := txn.Commit(context.Background())
+	commitCtx := context.Background()
+	ctxDone := verifChoice("commit-ctx", 2) == 1
+	if ctxDone {
+		// Commit with a context that is already cancelled: it may fail, but the store must stay usable
+		verifTag("commit-ctx", "already-cancelled")
+		c, cancel := context.WithCancel(context.Background())
+		cancel()
+		commitCtx = c
+	}
+	results, err := txn.Commit(commitCtx)
 	verifReach("after-end")
-	if !aborted {
+	if !aborted && !ctxDone {
 		verifAssert(err == nil, "Commit of a live transaction failed")
 	}
 	if err == nil {
@@ -191,8 +200,10 @@ func VerifC18Seq() {
 	}
 	res2, err := after.Commit(context.Background())
 	verifAssert(err == nil && len(res2) == len(c18Keys), "a fresh transaction after the end must commit")
-	for k := range c18Keys {
-		c18CheckGet(res2[k], model[k], "afterwards")
+	if !(ctxDone && err != nil) { // (which Sets a Commit that failed on its context applied is not specified)
+		for k := range c18Keys {
+			c18CheckGet(res2[k], model[k], "afterwards")
+		}
 	}
 	verifReach("store-usable")
 }
@@ -221,7 +232,8 @@ func (c c18Sched) Abort() error { verifSched("txn.abort"); return c.t.Abort() }
 
 func c18BeginSched(s *store, mode keyvalue.TransactionMode) keyvalue.Transaction {
 	verifSched("txn.begin")
-	t, err := s.Transaction(keyvalue.TransactionOptions{Mode: mode})
+	// through the entry point the file system uses (it must pick the store's own transactions for every mode)
+	t, err := keyvalue.TransactionOrSerial(s, keyvalue.TransactionOptions{Mode: mode})
 	verifAssert(err == nil, "Transaction failed")
 	return c18Sched{t}
 }
